@@ -4,8 +4,8 @@ CONSTANTS
   Unknown = 9
   ViewIds = {1, 2}
   MaxEvents = 3
-  SharedSlot = TRUE
-  FlattenUnion = FALSE
+  SharedSlot = FALSE
+  FlattenUnion = TRUE
   ArgAliased = FALSE
 INVARIANT ReadIsFilter
 INVARIANT SurvivorsInOrder
